@@ -253,7 +253,7 @@ impl Expr {
                 }
                 UnaryOperator::BitwiseNot => {
                     let value = unary.expr.run_nested(constants, open)?;
-                    Ok(value.reverse_bits())
+                    Ok(!value)
                 }
                 UnaryOperator::LogicalNot => {
                     let value = unary.expr.run_nested(constants, open)?;
